@@ -176,9 +176,10 @@ REQUIRED_HITS = {
 
 def finish(pid, tier, seed, d, t0, parts, level="model_checking"):
     """Merge the results of one or several families into the evidence file and the exit code."""
+    found = any(p["violations"] or p["known_hits"] for _, p in parts)
     for fam, keys in REQUIRED_HITS.get(pid, {}).items():
         for name, p in parts:
-            if name == fam:
+            if name == fam and not found:      # (a run that found violations may have been cut short by the hang budget)
                 missing = [k for k in keys if not p["hits"].get(k)]
                 if missing:
                     raise ToolFailure("vacuous run: no %s history of this run exercised %s" % (fam, ", ".join(missing)))
